@@ -476,6 +476,24 @@ func C17Cases(c *Ctx, rng *rand.Rand, spec *LSpec, withDisk bool, nArgv int) ([]
 		h.Ops = append(h.Ops, op)
 		hs = append(hs, h)
 	}
+	// (f) one of several patterns selects nothing that can be loaded (a misspelt directory, an
+	// import path typo, an empty directory): the run fails and changes nothing, wherever the
+	// pattern stands
+	for k, bad := range []string{"./tpyo-does-not-exist", w1.Module + "/no/such/pkg", "./emptydir"} {
+		h := &History{World: w1, Loc: rng.IntN(len(locNames))}
+		h.Ops = append(h.Ops, setup())
+		h.Ops = append(h.Ops, editOps("EditTypes", w1.Files, v2.Render())...)
+		if bad == "./emptydir" {
+			h.Ops = append(h.Ops, Op{Kind: "write", Label: "EmptyDir", Path: "emptydir/README.txt", Content: "no go files here\n", Input: true})
+		}
+		pats := append([]string{}, w1.Patterns...)
+		at := []int{0, len(pats) / 2, len(pats)}[k%3]
+		pats = append(pats[:at], append([]string{bad}, pats[at:]...)...)
+		op := genOp(&GenSpec{Expect: "fail", Plan: planIdentity(), Patterns: pats, Canon: w1.Patterns})
+		op.Label = "unloadable-pattern " + bad
+		h.Ops = append(h.Ops, op)
+		hs = append(hs, h)
+	}
 	// (c) argv
 	for i := 0; i < nArgv; i++ {
 		h := &History{World: w1, Loc: rng.IntN(len(locNames))}
